@@ -41,7 +41,7 @@ import (
 //        row = iface@<ts or ->/<sip or ->:<dip or ->:<dport or ->:<proto or ->:br:bs:pr:ps
 //        ("-" for everything that is not part of the query type), or err:<class>
 //
-// Only simple conditions and CIDR networks on nibble boundaries (no host names, no aliases) are generated: the
+// Only simple conditions and CIDR networks (no host names, no aliases) are generated: the
 // semantics of condition evaluation itself is property C09's subject.
 
 type c08WriteOut struct {
@@ -139,10 +139,9 @@ func (c *c08Cond) text() string {
 			v = net.IP(unhex(c.val)).String()
 		}
 		if c.attr == "snet" || c.attr == "dnet" {
-			// <hex address>/<number of leading hex digits> -> CIDR text
+			// <hex address>/<prefix length in bits> -> CIDR text
 			hv := strings.Split(c.val, "/")
-			nib, _ := strconv.Atoi(hv[1])
-			v = net.IP(unhex(hv[0])).String() + "/" + strconv.Itoa(4*nib)
+			v = net.IP(unhex(hv[0])).String() + "/" + hv[1]
 		}
 		return c.attr + " " + c08CmpText[c.cmp] + " " + v
 	case "not":
@@ -312,7 +311,7 @@ func c08GenLeaf(r *Rand, malformed bool) *c08Cond {
 	c := &c08Cond{op: "leaf"}
 	switch r.Intn(5) {
 	case 4:
-		// network membership (prefix lengths that are multiples of 4 bits; the address part is masked)
+		// network membership (any prefix length; the address part is masked)
 		c.attr = Pick(r, []string{"snet", "dnet"})
 		c.cmp = Pick(r, []string{"eq", "eq", "ne"})
 		if malformed {
@@ -323,26 +322,33 @@ func c08GenLeaf(r *Rand, malformed bool) *c08Cond {
 			src = !src
 		}
 		var ip []byte
-		var nib int
+		var bits int
 		if r.Chance(1, 2) {
 			if src {
 				ip = Pick(r, c08V4S)
 			} else {
 				ip = Pick(r, c08V4D)
 			}
-			nib = Pick(r, []int{0, 2, 4, 5, 6, 7, 8})
+			bits = Pick(r, []int{0, 1, 7, 8, 9, 12, 15, 16, 17, 20, 23, 24, 25, 27, 29, 30, 31, 32})
 		} else {
 			if src {
 				ip = c08V6([]byte{0x20, 0x01, 0x0d, 0xb8}, byte(1+r.Intn(4)))
 			} else {
 				ip = c08V6([]byte{0xfe, 0x80}, byte(1+r.Intn(3)))
 			}
-			nib = Pick(r, []int{0, 4, 8, 16, 31, 32})
+			bits = Pick(r, []int{0, 3, 10, 16, 32, 33, 64, 100, 121, 125, 126, 127, 128})
+		}
+		ip = append([]byte{}, ip...)
+		for i := range ip { // mask the host bits
+			switch {
+			case 8*i >= bits:
+				ip[i] = 0
+			case 8*(i+1) > bits:
+				ip[i] &= 0xff << (8 - bits%8)
+			}
 		}
 		h := []byte(hexBytes(ip))
-		for i := nib; i < len(h); i++ {
-			h[i] = '0'
-		}
+		nib := bits
 		c.val = string(h) + "/" + strconv.Itoa(nib)
 	case 0, 1:
 		c.attr = Pick(r, []string{"sip", "dip"})
@@ -594,7 +600,7 @@ func c08Gen(r *Rand, tier string) []Case {
 func init() {
 	register(&Prop{
 		ID:   "C08",
-		Rule: "seeded: databases of 1-3 interfaces x 1-3 UTC days (mid-month, month and year boundary, gap days) x 1-4 blocks per day (strictly increasing, aligned and unaligned timestamps, first block at midnight) x 0-8 (thorough 0-14) flows per block drawn from a small universe (8 v4 / 4 v6 source addresses, 3 destinations per family, 4 ports, 2 protocols; v4-only, v6-only and mixed databases; counters zeroed so that inbound-only, outbound-only, bidirectional and all-zero flows occur), every block written by the real DBWriter.Write (lz4) into a temp database; per database 14 (thorough 50) queries: random non-empty attribute selection out of sip,dip,dport,proto,time,iface in random order, condition = random and/or/not tree (depth <= 3) over sip/dip =,!= v4 and v6 literals (inside and outside the universe, also of the other column), snet/dnet =,!= v4 and v6 networks (/0 … /32 resp. /128 on 4-bit boundaries) and dport/proto =,!=,<,>,<=,>= literals, optional direction filter in/out/uni/bi, time range = whole database or bounds on/next to/between block timestamps and day boundaries, interface argument any / one / several; 1 in 40 queries malformed (ordering comparator on an address). Real engine.QueryRunner.Run; output = sorted rows, totals, hits. Non-trivial: flows of both IP families stored inside the range on a queried interface and the query has a condition, a direction filter or fewer than four attributes. time.Local pinned to UTC.",
+		Rule: "seeded: databases of 1-3 interfaces x 1-3 UTC days (mid-month, month and year boundary, gap days) x 1-4 blocks per day (strictly increasing, aligned and unaligned timestamps, first block at midnight) x 0-8 (thorough 0-14) flows per block drawn from a small universe (8 v4 / 4 v6 source addresses, 3 destinations per family, 4 ports, 2 protocols; v4-only, v6-only and mixed databases; counters zeroed so that inbound-only, outbound-only, bidirectional and all-zero flows occur), every block written by the real DBWriter.Write (lz4) into a temp database; per database 14 (thorough 50) queries: random non-empty attribute selection out of sip,dip,dport,proto,time,iface in random order, condition = random and/or/not tree (depth <= 3) over sip/dip =,!= v4 and v6 literals (inside and outside the universe, also of the other column), snet/dnet =,!= v4 and v6 networks (/0 … /32 resp. /128, byte-aligned and not) and dport/proto =,!=,<,>,<=,>= literals, optional direction filter in/out/uni/bi, time range = whole database or bounds on/next to/between block timestamps and day boundaries, interface argument any / one / several; 1 in 40 queries malformed (ordering comparator on an address). Real engine.QueryRunner.Run; output = sorted rows, totals, hits. Non-trivial: flows of both IP families stored inside the range on a queried interface and the query has a condition, a direction filter or fewer than four attributes. time.Local pinned to UTC.",
 		Gen:  c08Gen,
 		Run:  c08Run,
 		Init: func(string) error {
